@@ -1,7 +1,7 @@
 (* C16 — property theorems only.  "ref" = an object together with the data word of the interface value that
    holds it (what eq compares); consistent2 a b = "same Go type and same data word only for the same object". *)
 From Coq Require Import ZArith NArith List Bool Permutation.
-From C16 Require Import Model Spec Rounding Proofs Proofs2 Proofs3 Proofs4 Proofs5 Proofs6.
+From C16 Require Import Model Spec Rounding RoundExact Proofs Proofs2 Proofs3 Proofs4 Proofs5 Proofs6.
 Import ListNotations.
 
 (* (1) eq implies eql implies equal implies equalp: every pair of references, no guard. *)
@@ -33,8 +33,8 @@ Theorem C16_reflexive_on_copies : forall x w w',
 Proof. exact copies_reflexive. Qed.
 Print Assumptions C16_reflexive_on_copies.
 
-(* (4) symmetry of eql, equal, equalp on well-formed objects whose ratios have numerators below 2^62
-   (any nesting, floats included). *)
+(* (4) symmetry of eql, equal, equalp on all well-formed objects (any nesting, floats included).  Before repair
+   C16-11 this needed ratio numerators below 2^62 (a bignum and a ratio were compared through roundings). *)
 Theorem C16_eql_symmetric : forall a b, sym_guard (r_obj a) = true -> sym_guard (r_obj b) = true -> eql_m a b = eql_m b a.
 Proof. exact eql_m_sym. Qed.
 Print Assumptions C16_eql_symmetric.
@@ -49,7 +49,7 @@ Theorem C16_object_equal_symmetric : forall x y, oeq x y = oeq y x.
 Proof. exact oeq_sym. Qed.
 Print Assumptions C16_object_equal_symmetric.
 
-(* (5) transitivity of eql, equal, equalp on well-formed, tame objects that contain no float. *)
+(* (5) transitivity of eql, equal, equalp on well-formed objects that contain no float. *)
 Theorem C16_eql_transitive : forall a b c, consistent2 a b -> consistent2 b c ->
   trans_guard (r_obj a) = true -> trans_guard (r_obj b) = true -> trans_guard (r_obj c) = true ->
   eql_m a b = true -> eql_m b c = true -> eql_m a c = true.
@@ -66,35 +66,45 @@ Theorem C16_equalp_transitive : forall a b c, consistent2 a b -> consistent2 b c
 Proof. exact equalp_m_trans. Qed.
 Print Assumptions C16_equalp_transitive.
 
-(* the fact about rounding the two guards rest on: round-to-nearest never crosses a power of two *)
+(* facts about rounding: round-to-nearest never crosses a power of two (what the guards of (4) and (5) rested on
+   before repair C16-11), and it is exact on a value that fits the precision (what (6) rests on) *)
 Theorem C16_rounding_bound : forall p n d k, (0 < d)%Z -> (0 <= k)%Z -> (Z.abs n <= 2 ^ k * d)%Z ->
   let '(m, e) := rne p n d in
   if (0 <=? e)%Z then (Z.abs m * 2 ^ e <= 2 ^ k)%Z else (Z.abs m <= 2 ^ k * 2 ^ (- e))%Z.
 Proof. exact rne_bound. Qed.
 Print Assumptions C16_rounding_bound.
+Theorem C16_rounding_exact : forall p n d m0 s, (0 < p)%Z -> (0 < d)%Z ->
+  dy_is_rat (m0, s) n d = true -> (Z.abs m0 < 2 ^ p)%Z -> dy_eqb (rne p n d) (m0, s) = true.
+Proof. exact rne_exact. Qed.
+Print Assumptions C16_rounding_exact.
 
-(* (6) equal objects have equal sxhash codes: objects without floats and ratios whose strings, symbols and
-   characters are ASCII of the classes the SEN writer does not escape. *)
-Theorem C16_sxhash_respects_equal : forall a b, consistent2 a b ->
-  hash_dom (r_obj a) = true -> hash_dom (r_obj b) = true ->
+(* (6) equal objects have equal sxhash codes.  Text of any kind (sxhash folds case the way equal does).  Numbers
+   in two tiers: fl = false - no float anywhere, every fixnum, bignum and ratio; fl = true - floats too, every
+   number being a single-float value in explicit form (integer below 2^24, ratio n/2^k with |n| < 2^24, float
+   with a significand below 2^24), so that 1000000 = 1000000.0 = 1000000.0s0 and 1/2 = 0.5 are covered.  A code
+   is the masked byte sum of the modelled text plus the canonical values of the numbers whose text is strconv's. *)
+Theorem C16_sxhash_respects_equal : forall fl a b, consistent2 a b ->
+  hash_dom fl (r_obj a) = true -> hash_dom fl (r_obj b) = true ->
   equal_m a b = true -> sxhash_m (r_obj a) = sxhash_m (r_obj b).
 Proof. exact sxhash_respects_equal. Qed.
 Print Assumptions C16_sxhash_respects_equal.
 
 (* (7) hash tables: for EVERY history of setf-gethash / gethash / remhash / clrhash / hash-table-count /
    maphash over a pool of keys on which the table's test is an equivalence that coincides with Go's == on
-   the key representations, every observation of the Go-map model is the observation of the finite map under
-   the test, computed from the history alone: a lookup returns the value last stored under an equivalent
-   key (unless removed or cleared since), the count is the number of equivalence classes holding a value,
-   maphash enumerates exactly those classes (as a set). *)
+   the representations of the hashable keys and relates no hashable key to an unhashable one, every
+   observation of the Go-map model is the observation of the specification, computed from the history alone:
+   an operation on an unhashable key (a list) signals a type-error and changes nothing; otherwise the table is
+   the finite map under the test: a lookup returns the value last stored under an equivalent key (unless
+   removed or cleared since), the count is the number of equivalence classes holding a value, maphash
+   enumerates exactly those classes (as a set). *)
 Theorem C16_table_refines_map : forall pool tst ops,
   pool_ok pool tst = true -> forallb (op_in_range (List.length pool)) ops = true ->
   Forall2 obs_equiv (t_run pool [] ops) (s_run pool tst [] ops).
 Proof. exact table_refines_map. Qed.
 Print Assumptions C16_table_refines_map.
 
-(* the guard of (7) is met by every pool of keys of the simple kinds (nil, t, fixnums, characters, strings,
-   symbols, vectors) whose references are consistent: there the table (whose reported test is always eql) is
+(* the guard of (7) is met by every pool of keys of the simple kinds (nil, t, fixnums, bignums outside int64, ratios
+   with a denominator above 1, characters, strings, symbols, vectors, lists) whose references are consistent: there the table (whose reported test is always eql) is
    a finite map under slip's eql, for every history. *)
 Theorem C16_simple_pool_ok : forall pool,
   simple_pool pool = true ->
@@ -112,7 +122,7 @@ Print Assumptions C16_table_is_map_on_simple_keys.
 
 (* (8) refutations outside the guards: the known findings *)
 Theorem C16_transitivity_with_floats_refuted :
-  (forallb (fun r => wf (r_obj r) && tame (r_obj r)) [w_a; w_b; w_c; w_third; w_third_s; w_third_d] = true) /\
+  (forallb (fun r => wf (r_obj r)) [w_a; w_b; w_c; w_third; w_third_s; w_third_d] = true) /\
   all_consistent [w_a; w_b; w_c] /\ all_consistent [w_third; w_third_s; w_third_d] /\
   (eql_m w_a w_b = true /\ eql_m w_b w_c = true /\ eql_m w_a w_c = false) /\
   (equal_m w_a w_b = true /\ equal_m w_b w_c = true /\ equal_m w_a w_c = false) /\
@@ -121,53 +131,68 @@ Theorem C16_transitivity_with_floats_refuted :
   trans_guard (r_obj w_b) = false.
 Proof. exact transitivity_with_floats_refuted. Qed.
 Print Assumptions C16_transitivity_with_floats_refuted.
-Theorem C16_symmetry_bignum_ratio_refuted :
-  wf (r_obj w_big) = true /\ wf (r_obj w_rat) = true /\ tame (r_obj w_rat) = false /\
-  eql_m w_big w_rat = true /\ eql_m w_rat w_big = false /\
-  equal_m w_big w_rat = true /\ equal_m w_rat w_big = false /\
-  equalp_m w_big w_rat = true /\ equalp_m w_rat w_big = false.
-Proof. exact symmetry_bignum_ratio_refuted. Qed.
-Print Assumptions C16_symmetry_bignum_ratio_refuted.
-Theorem C16_sxhash_kelvin_refuted :
-  equal_m w_k w_kelvin = true /\ sxhash_m (r_obj w_k) = Some 75%N /\ sxhash_m (r_obj w_kelvin) = Some 464%N /\
-  hash_dom (r_obj w_kelvin) = false.
-Proof. exact sxhash_kelvin_refuted. Qed.
-Print Assumptions C16_sxhash_kelvin_refuted.
-Theorem C16_sxhash_bignum_ratio_refuted :
-  equal_m w_big w_rat = true /\ sxhash_m (r_obj w_big) <> sxhash_m (r_obj w_rat) /\
-  (exists h, sxhash_m (r_obj w_big) = Some h) /\ (exists h, sxhash_m (r_obj w_rat) = Some h) /\
-  hash_dom (r_obj w_rat) = false.
-Proof. exact sxhash_bignum_ratio_refuted. Qed.
-Print Assumptions C16_sxhash_bignum_ratio_refuted.
-Theorem C16_table_bignum_key_refuted :
-  t_run pool_big [] [HPut 0 1; HGet 1; HPut 1 2; HCount] = [OVal 1; OGet None; OVal 2; ONum 2] /\
-  s_run pool_big (pool_test 1 pool_big) [] [HPut 0 1; HGet 1; HPut 1 2; HCount] = [OVal 1; OGet (Some 1%Z); OVal 2; ONum 1] /\
-  pool_coherent pool_big (pool_test 1 pool_big) = false /\ pool_equiv pool_big (pool_test 1 pool_big) = true.
-Proof. exact table_bignum_key_refuted. Qed.
-Print Assumptions C16_table_bignum_key_refuted.
+(* repaired findings: a bignum and a ratio are compared exactly in both orders; k / KELVIN SIGN and
+   1000000 / 1000000.0 / 1000000.0s0 and 1/2 / 0.5 have equal codes *)
+Theorem C16_bignum_ratio_exact :
+  wf (r_obj w_big) = true /\ wf (r_obj w_rat) = true /\
+  eql_m w_big w_rat = false /\ eql_m w_rat w_big = false /\
+  equalp_m w_big w_rat = false /\ equalp_m w_rat w_big = false /\
+  eql_m w_big (mkref (Rat (2 ^ 80) 2) 3) = true /\ eql_m (mkref (Rat (2 ^ 80) 2) 3) w_big = true.
+Proof. exact bignum_ratio_exact. Qed.
+Print Assumptions C16_bignum_ratio_exact.
+Theorem C16_sxhash_repaired :
+  equal_m w_k w_kelvin = true /\ sxhash_m (r_obj w_k) = sxhash_m (r_obj w_kelvin) /\
+  sxhash_m (r_obj w_kelvin) = Some (mk_hcode 75 []) /\
+  equal_m w_mil w_mil_d = true /\ equal_m w_mil w_mil_s = true /\
+  sxhash_m (r_obj w_mil) = sxhash_m (r_obj w_mil_d) /\ sxhash_m (r_obj w_mil) = sxhash_m (r_obj w_mil_s) /\
+  hash_dom true (r_obj w_mil) = true /\ hash_dom true (r_obj w_mil_d) = true /\
+  equal_m (mkref (Rat 1 2) 0) (mkref (Flt FDouble 1 (-1)) 1) = true /\
+  sxhash_m (Rat 1 2) = sxhash_m (Flt FDouble 1 (-1)) /\ hash_dom true (Rat 1 2) = true /\
+  sxhash_m (Fix 123456) = Some (mk_hcode 117 []).
+Proof. exact sxhash_repaired. Qed.
+Print Assumptions C16_sxhash_repaired.
+(* outside the guard of (6): a fixnum beyond 2^53, the single-float and the double-float it converts to
+   (known finding C16-sxhash-fixnum-beyond-2-53-and-single-float) *)
+Theorem C16_sxhash_rounding_refuted :
+  wf (r_obj w_f60) = true /\ equal_m w_f60 w_s60 = true /\ equal_m w_f60 w_d60 = true /\ equal_m w_s60 w_d60 = false /\
+  sxhash_m (r_obj w_f60) = sxhash_m (r_obj w_d60) /\ sxhash_m (r_obj w_f60) <> sxhash_m (r_obj w_s60) /\
+  hash_dom true (r_obj w_f60) = false /\ hash_dom false (r_obj w_s60) = false.
+Proof. exact sxhash_rounding_refuted. Qed.
+Print Assumptions C16_sxhash_rounding_refuted.
+(* bignum and ratio keys (findings C16-hash-bignum-key-by-pointer, C16-hash-ratio-key-by-pointer, repaired): two
+   separately allocated copies of one value are one key; the pool is inside the guard of (7) *)
+Theorem C16_table_bignum_key_by_value :
+  t_run pool_big [] ops_big =
+    [OVal 1; OGet (Some 1%Z); OVal 2; ONum 1; OVal 7; OGet (Some 7%Z); OGet None; OEntries [(0%nat, 2%Z); (2%nat, 7%Z)]; OBool true; ONum 1; OGet None] /\
+  s_run pool_big (pool_test 1 pool_big) [] ops_big = t_run pool_big [] ops_big /\
+  simple_pool pool_big = true /\ pool_ok pool_big (pool_test 1 pool_big) = true.
+Proof. exact table_bignum_key_by_value. Qed.
+Print Assumptions C16_table_bignum_key_by_value.
 Theorem C16_table_float_key_refuted :
   t_run pool_flt [] [HPut 0 1; HGet 1] = [OVal 1; OGet None] /\
   s_run pool_flt (pool_test 1 pool_flt) [] [HPut 0 1; HGet 1] = [OVal 1; OGet (Some 1%Z)] /\
   pool_coherent pool_flt (pool_test 1 pool_flt) = false /\ pool_equiv pool_flt (pool_test 1 pool_flt) = true.
 Proof. exact table_float_key_refuted. Qed.
 Print Assumptions C16_table_float_key_refuted.
-Theorem C16_table_list_key_faults_refuted :
-  t_run pool_lst [] [HPut 0 1; HGet 0] = [OFault; OFault] /\
-  s_run pool_lst (pool_test 1 pool_lst) [] [HPut 0 1; HGet 0] = [OVal 1; OGet (Some 1%Z)] /\
-  pool_hashable pool_lst = false.
-Proof. exact table_list_key_faults_refuted. Qed.
-Print Assumptions C16_table_list_key_faults_refuted.
+(* a list as key (finding C16-hash-list-key-faults, repaired): the operations signal a type-error, the table is
+   untouched, and the pool is inside the guard of (7) *)
+Theorem C16_table_list_key_refused :
+  t_run pool_lst [] ops_lst = [OTypeErr; OTypeErr; OVal 5; OTypeErr; ONum 1; OGet (Some 5%Z); OEntries [(1%nat, 5%Z)]] /\
+  s_run pool_lst (pool_test 1 pool_lst) [] ops_lst = t_run pool_lst [] ops_lst /\
+  pool_ok pool_lst (pool_test 1 pool_lst) = true.
+Proof. exact table_list_key_refused. Qed.
+Print Assumptions C16_table_list_key_refused.
 
 (* (9) the guards are inhabited by non-trivial objects and histories *)
 Theorem C16_guards_nonvacuous :
   forallb (fun r => trans_guard (r_obj r)) [ex_x; ex_y; ex_z] = true /\
-  hash_dom (Lst [Str [97; 98]%N; Fix 7]) = true /\ hash_dom (Lst [Str [65; 66]%N; Big 7]) = true /\
+  hash_dom false (Lst [Str [97; 98]%N; Fix 7]) = true /\ hash_dom true (Lst [Str [65; 66]%N; Big 7]) = true /\
   all_consistent [ex_x; ex_y; ex_z] /\
   eq_m ex_x ex_y = false /\ eql_m ex_x ex_y = false /\ equal_m ex_x ex_y = true /\ equal_m ex_y ex_z = true /\
   equal_m ex_x ex_z = true /\ equalp_m ex_x ex_z = true /\
   equal_m (mkref (Chr 99) 0) (mkref (Chr 67) 1) = false /\ equalp_m (mkref (Chr 99) 0) (mkref (Chr 67) 1) = true /\
   sxhash_m (Lst [Str [97; 98]%N; Fix 7]) = sxhash_m (Lst [Str [65; 66]%N; Big 7]) /\
-  sxhash_m (Lst [Str [97; 98]%N; Fix 7]) = Some 338%N.
+  sxhash_m (Lst [Str [97; 98]%N; Fix 7]) = Some (mk_hcode 338 []).
 Proof. exact guards_nonvacuous. Qed.
 Print Assumptions C16_guards_nonvacuous.
 Theorem C16_table_guard_nonvacuous :
